@@ -6,6 +6,7 @@ theorems (listed in harness/props/c16.py) are marked PROPERTY.
 Core Lean only.
 -/
 import PydlVerif.Model.SpecOrder
+import PydlVerif.Lemmas.SpecFiles
 namespace PydlVerif.C16
 open PydlVerif PydlVerif.SpecOrder
 
@@ -1526,5 +1527,689 @@ example : (specAppend (0 : Int) ⟨3, [[1, 1, 1], [1, 1, 1]]⟩ ⟨3, [[2, 2, 2]
     = [[0, 0, 1, 1, 1], [0, 0, 1, 1, 1], [2, 2, 2, 0, 0]] := by decide
 example : (specAppend (0 : Int) ⟨3, [[1, 1, 1], [1, 1, 1]]⟩ ⟨4, [[2, 2, 2, 2]]⟩ 1).rows
     = [[1, 1, 1, 0, 0], [1, 1, 1, 0, 0], [0, 2, 2, 2, 2]] := by decide
+
+
+/-! ## extension 2: number_of_fibers for plate vectors, index wrap, error theorems, readspec over directory listings -/
+
+/-- PROPERTY.  number_of_fibers for a plate VECTOR: 640 for every plate when every latest MJD is before 55025; as soon as ONE
+plate is later, EVERY plate of the vector (the early ones too) gets N_TOTAL of its first platelist row under
+(plate, latest MJD, run2d, run1d). -/
+theorem numberOfFibers_vec (latest : Nat → Nat) (rows : List PlateListRow) (r2 r1 : String) (plates : List Nat) (nt : Nat → Nat) :
+    ((∀ p ∈ plates, latest p < 55025) → ∀ pl, numberOfFibers latest pl r2 r1 plates = .ok (plates.map (fun _ => 640))) ∧
+    ((∃ p ∈ plates, ¬ latest p < 55025) →
+      (∀ p ∈ plates, ∃ r rest, rows.filter (fun r => r.plate == p && r.mjd == latest p && r.run2d == r2 && r.run1d == r1) = r :: rest
+        ∧ r.ntotal = nt p) →
+      numberOfFibers latest (some rows) r2 r1 plates = .ok (plates.map nt)) := by
+  constructor
+  · intro h pl
+    have : (plates.map latest).all (· < 55025) = true := by
+      simp only [List.all_map, List.all_eq_true, Function.comp, decide_eq_true_eq]
+      exact h
+    simp only [numberOfFibers, this, if_true, List.map_map]
+    rfl
+  · rintro ⟨p0, hp0, hlate⟩ hrows
+    have : ¬ (plates.map latest).all (· < 55025) = true := by
+      simp only [List.all_map, List.all_eq_true, Function.comp, decide_eq_true_eq]
+      intro h
+      exact hlate (h p0 hp0)
+    simp only [numberOfFibers, this]
+    apply mapM_ok
+    intro p hp
+    obtain ⟨r, rest, hf, hn⟩ := hrows p hp
+    simp only [hf, hn]
+    rfl
+
+/-- PROPERTY.  The numpy index `fibre - 1` exactly: fibres 1..nfib are rows 0..nfib-1; fibre x with `-nfib < x ≤ 0` WRAPS to row
+`nfib - 1 + x` (fibre 0 = the last row, fibre -1 = the row before it, ...); everything else is an IndexError. -/
+theorem rowIndex_cases (nfib : Nat) (x : Int) :
+    (1 ≤ x ∧ x ≤ nfib → rowIndex nfib x = some (x - 1).toNat) ∧
+    (-(nfib : Int) < x ∧ x ≤ 0 → rowIndex nfib x = some ((nfib : Int) - 1 + x).toNat ∧ rowIndex nfib x = rowIndex nfib (x + nfib)) ∧
+    (x ≤ -(nfib : Int) ∨ (nfib : Int) < x → rowIndex nfib x = none) := by
+  refine ⟨?_, ?_, ?_⟩
+  · intro h
+    have : (0 : Int) ≤ x - 1 ∧ x - 1 < nfib := by omega
+    simp only [rowIndex]
+    rw [if_pos this]
+  · intro h
+    have n1 : ¬ ((0 : Int) ≤ x - 1 ∧ x - 1 < nfib) := by omega
+    have n2 : x - 1 < 0 ∧ -(nfib : Int) ≤ x - 1 := by omega
+    have n3 : (0 : Int) ≤ x + nfib - 1 ∧ x + nfib - 1 < nfib := by omega
+    simp only [rowIndex]
+    rw [if_neg n1, if_pos n2, if_pos n3]
+    constructor
+    · congr 1; omega
+    · congr 1; omega
+  · intro h
+    have n1 : ¬ ((0 : Int) ≤ x - 1 ∧ x - 1 < nfib) := by omega
+    have n2 : ¬ (x - 1 < 0 ∧ -(nfib : Int) ≤ x - 1) := by omega
+    simp only [rowIndex]
+    rw [if_neg n1, if_neg n2]
+
+/-- PROPERTY.  The numpy index of `znum=k` exactly: with `q = (fibre-1)*nper + k - 1`, rows `0 ≤ q < nrows` are read as they are,
+`-nrows ≤ q < 0` wraps to row `nrows + q` (e.g. fibre 1, znum 0 = the LAST row of the table), anything else is an IndexError.
+In particular `znum = nper + 1` on fibre f silently reads fit 1 of fibre f+1 (q stays inside the table) unless f is the last. -/
+theorem zIndex_cases {τ : Type} (z : ZAll τ) (k fiber : Int) :
+    let q := (fiber - 1) * (z.nper : Int) + k - 1
+    (0 ≤ q ∧ q < z.nrows → zIndex z k fiber = some q.toNat) ∧
+    (-(z.nrows : Int) ≤ q ∧ q < 0 → zIndex z k fiber = some (q + z.nrows).toNat) ∧
+    (q < -(z.nrows : Int) ∨ (z.nrows : Int) ≤ q → zIndex z k fiber = none) := by
+  intro q
+  refine ⟨?_, ?_, ?_⟩
+  · intro h
+    simp only [zIndex, npIndex]
+    rw [if_pos h]
+  · intro h
+    have n1 : ¬ ((0 : Int) ≤ q ∧ q < z.nrows) := by omega
+    have n2 : q < 0 ∧ -(z.nrows : Int) ≤ q := by omega
+    simp only [zIndex, npIndex]
+    rw [if_neg n1, if_pos n2]
+  · intro h
+    have n1 : ¬ ((0 : Int) ≤ q ∧ q < z.nrows) := by omega
+    have n2 : ¬ (q < 0 ∧ -(z.nrows : Int) ≤ q) := by omega
+    simp only [zIndex, npIndex]
+    rw [if_neg n1, if_neg n2]
+
+section Ext2
+variable {α τ : Type} [Scalar α]
+
+/-- the loop body looks at the fibre numbers only through the numpy row index -/
+theorem step_congr_fiber (S : Survey α τ) (pv mv : List Nat) (fv fv' : List Int)
+    (h : ∀ i, i < pv.length → ∀ f, S (pv.getD i 0) (mv.getD i 0) = some f →
+      rowIndex f.nfib (fv.getD i 0) = rowIndex f.nfib (fv'.getD i 0))
+    (st : Option (Acc α τ)) (u : Nat) : step S pv mv fv st u = step S pv mv fv' st u := by
+  simp only [step]
+  cases hS : S (u >>> 16) (u &&& ((1 <<< 16) - 1)) with
+  | none => rfl
+  | some f =>
+    have hrow : ∀ i ∈ idxOf pv mv u, rowIndex f.nfib (fv.getD i 0) = rowIndex f.nfib (fv'.getD i 0) := by
+      intro i hi
+      obtain ⟨h1, h2, h3⟩ := (mem_idxOf u i).mp hi
+      exact h i h1 f (by rw [h2, h3]; exact hS)
+    have e1 : ((idxOf pv mv u).map (fun i => fv.getD i 0)).all (fun x => (rowIndex f.nfib x).isSome)
+        = ((idxOf pv mv u).map (fun i => fv'.getD i 0)).all (fun x => (rowIndex f.nfib x).isSome) := by
+      rw [Bool.eq_iff_iff]
+      simp only [List.all_eq_true, List.mem_map]
+      constructor
+      · rintro H x ⟨i, hi, rfl⟩
+        rw [← hrow i hi]; exact H _ ⟨i, hi, rfl⟩
+      · rintro H x ⟨i, hi, rfl⟩
+        rw [hrow i hi]; exact H _ ⟨i, hi, rfl⟩
+    have e2 : ((idxOf pv mv u).map (fun i => fv.getD i 0)).map (fun x => (rowIndex f.nfib x).getD 0)
+        = ((idxOf pv mv u).map (fun i => fv'.getD i 0)).map (fun x => (rowIndex f.nfib x).getD 0) := by
+      rw [List.map_map, List.map_map]
+      apply List.map_congr_left
+      intro i hi
+      simp only [Function.comp, hrow i hi]
+    simp only [e1, e2]
+
+/-- PROPERTY (fibre ≤ 0, stated exactly).  A request vector `fv` in which some fibres are `≤ 0` but inside the wrap range
+(`-nfib_i < x_i ≤ 0`) returns EXACTLY what the request with those fibres replaced by `x_i + nfib_i` returns: fibre 0 is the last
+fibre of the plate, fibre -1 the one before.  So `readspec_row_i` / `readspec_tables` applied to the replaced vector say which
+rows come back.  (The property statement speaks about "requested spectra"; fibre ≤ 0 names no spectrum - this is OUTSIDE the
+statement, the theorem only pins the behaviour down.) -/
+theorem readspec_fiber_wrap (argsort : List Nat → List Nat) (S : Survey α τ) (pv mv : List Nat) (fv : List Int)
+    (nf : Nat → Nat) (hnf : ∀ i, i < pv.length → ∀ f, S (pv.getD i 0) (mv.getD i 0) = some f → f.nfib = nf i)
+    (hw : ∀ i, i < pv.length → (1 ≤ fv.getD i 0) ∨ (-(nf i : Int) < fv.getD i 0 ∧ fv.getD i 0 ≤ 0)) :
+    readspecCore argsort S pv mv fv = readspecCore argsort S pv mv
+      ((List.range fv.length).map (fun i => if fv.getD i 0 ≤ 0 then fv.getD i 0 + nf i else fv.getD i 0)) := by
+  unfold readspecCore
+  have : step S pv mv fv = step S pv mv
+      ((List.range fv.length).map (fun i => if fv.getD i 0 ≤ 0 then fv.getD i 0 + nf i else fv.getD i 0)) := by
+    funext st u
+    apply step_congr_fiber
+    intro i hi f hf
+    by_cases hlen : i < fv.length
+    · have e : ((List.range fv.length).map (fun i => if fv.getD i 0 ≤ 0 then fv.getD i 0 + nf i else fv.getD i 0)).getD i 0
+          = if fv.getD i 0 ≤ 0 then fv.getD i 0 + nf i else fv.getD i 0 := by
+        simp [List.getD_eq_getElem?_getD, List.getElem?_range hlen]
+      rw [e]
+      rcases hw i hi with h1 | h1
+      · rw [if_neg (by omega)]
+      · rw [if_pos h1.2, hnf i hi f hf]
+        exact ((rowIndex_cases (nf i) (fv.getD i 0)).2.1 h1).2
+    · have e0 : fv.getD i 0 = 0 := by simp [List.getD_eq_getElem?_getD, List.getElem?_eq_none (Nat.le_of_not_lt hlen)]
+      have e : ((List.range fv.length).map (fun i => if fv.getD i 0 ≤ 0 then fv.getD i 0 + nf i else fv.getD i 0)).getD i 0 = 0 := by
+        simp [List.getD_eq_getElem?_getD, Nat.le_of_not_lt hlen]
+      rw [e, e0]
+  rw [this]
+
+theorem foldlM_error_of_mem {β γ : Type} (f : β → γ → Except String β) (l : List γ) (u : γ) (hu : u ∈ l)
+    (hf : ∀ b, ∃ e, f b u = .error e) (b : β) : ∃ e, l.foldlM f b = .error e := by
+  induction l generalizing b with
+  | nil => cases hu
+  | cons x xs ih =>
+    rw [List.foldlM_cons]
+    cases hx : f b x with
+    | error e => exact ⟨e, rfl⟩
+    | ok b' =>
+      rcases List.mem_cons.mp hu with h | h
+      · subst h
+        obtain ⟨e, he⟩ := hf b
+        rw [he] at hx
+        cases hx
+      · exact ih h b'
+
+/-- PROPERTY (error theorem).  If ONE request names a plate-MJD without an spPlate file, readspec returns nothing: it raises
+(FileNotFoundError from `fits.open`, or an earlier IndexError of another file), whatever the other requests are, for any
+`znum`.  No partial result, no row of another file in its place. -/
+theorem readspec_missing_file_raises (argsort : List Nat → List Nat) (S : Survey α τ) (Z : ZSurvey τ) (znum : Option Int)
+    (pv mv : List Nat) (fv : List Int) (hlen : mv.length = pv.length) (i0 : Nat) (h0 : i0 < pv.length)
+    (hm : mv.getD i0 0 < 2 ^ 16) (hS : S (pv.getD i0 0) (mv.getD i0 0) = none) :
+    ∃ e, readspecCoreX argsort S Z znum pv mv fv = .error e := by
+  simp only [readspecCoreX]
+  have hu : key (pv.getD i0 0) (mv.getD i0 0) ∈ uniq (List.zipWith key pv mv) := (mem_keys hlen _).mpr ⟨i0, h0, rfl⟩
+  have hd := key_decode (pv.getD i0 0) (mv.getD i0 0) hm
+  obtain ⟨e, he⟩ := foldlM_error_of_mem (stepX S Z znum pv mv fv) _ _ hu (by
+    intro b
+    refine ⟨"FileNotFoundError", ?_⟩
+    unfold stepX
+    simp only [hd.1, hd.2, hS]
+    rfl) none
+  exact ⟨e, by simp only [he] <;> rfl⟩
+
+omit [Scalar α] in
+/-- PROPERTY (error theorem, the reorder step).  When an accumulated table (zans / tsobj: some plate-MJDs had the spZbest /
+spZall / photoPlate file, others not - "mixed availability") has FEWER rows than there are requests, the final reorder
+`x[j]` with `j = allpmjdindex.argsort()` raises IndexError for ANY argsort: nothing is returned, no row is silently shifted
+to another request. -/
+theorem finish_short_table_raises (argsort : List Nat → List Nat) (hA : IsArgsort argsort) (a : Acc α τ)
+    (h : (∃ l, a.zans = some l ∧ l.length < a.allidx.length) ∨ (∃ l, a.tsobj = some l ∧ l.length < a.allidx.length)) :
+    ∃ e, finish argsort a = .error e := by
+  have hperm := (hA a.allidx).1
+  have hbig : ∀ l : List τ, l.length < a.allidx.length → gather l (argsort a.allidx) = .error "IndexError" := by
+    intro l hl
+    unfold gather
+    have : ¬ ((argsort a.allidx).all (· < l.length) = true) := by
+      intro hall
+      rw [List.all_eq_true] at hall
+      have hmem : l.length ∈ argsort a.allidx := hperm.mem_iff.mpr (List.mem_range.mpr hl)
+      have := hall _ hmem
+      simp at this
+    rw [if_neg this]
+    rfl
+  simp only [finish]
+  cases h1 : a.imgs.mapM (fun s => do pure (⟨s.npix, ← gather s.rows (argsort a.allidx)⟩ : Img α)) with
+  | error e => exact ⟨e, rfl⟩
+  | ok imgs =>
+    cases h2 : gather a.plug (argsort a.allidx) with
+    | error e => exact ⟨e, rfl⟩
+    | ok plug =>
+      rcases h with ⟨l, hl, hlt⟩ | ⟨l, hl, hlt⟩
+      · refine ⟨"IndexError", ?_⟩
+        simp [hl, gatherOpt, hbig l hlt, bind, Except.bind]
+      · cases h3 : gatherOpt a.zans (argsort a.allidx) with
+        | error e => exact ⟨e, rfl⟩
+        | ok z =>
+          refine ⟨"IndexError", ?_⟩
+          simp [hl, gatherOpt, hbig l hlt, bind, Except.bind]
+
+end Ext2
+
+/-! ### readspec over directory listings (Model/SpecFiles.lean) -/
+
+section FS
+variable {α τ : Type} [Scalar α]
+
+/-- the survey that a directory holding the spPlate files `files` with contents `content` IS -/
+def surveyOfFiles (files : List (Nat × Nat)) (content : List Char → PlateFile α τ) : Survey α τ :=
+  fun p m => if (p, m) ∈ files then some (content (specFileName p m)) else none
+
+/-- a directory entry that the glob of no plate picks: other kinds of files (spZbest-…, photoPlate-…, platelist.fits),
+sub-directories, names with other extensions -/
+def NoGlob (name : List Char) : Prop := ∀ plate, globMatch plate name = false
+
+omit [Scalar α] in
+theorem surveyOfListing_eq (files : List (Nat × Nat)) (junk : List (List Char)) (hj : ∀ n ∈ junk, NoGlob n)
+    (content : List Char → PlateFile α τ) :
+    surveyOfListing (listingOf files ++ junk) content = surveyOfFiles files content := by
+  funext p m
+  unfold surveyOfListing surveyOfFiles
+  have : specFileName p m ∈ listingOf files ++ junk ↔ (p, m) ∈ files := by
+    rw [List.mem_append]
+    constructor
+    · rintro (h | h)
+      · simp only [listingOf, List.mem_map] at h
+        obtain ⟨f, hf, he⟩ := h
+        have := specFileName_injective _ _ _ _ he
+        rw [← this.1, ← this.2]; exact hf
+      · have h1 := hj _ h p
+        rw [(globMatch_specFileName p p m).mpr rfl] at h1
+        cases h1
+    · intro h
+      left
+      simp only [listingOf, List.mem_map]
+      exact ⟨_, h, rfl⟩
+  simp only [this]
+
+theorem latestMjdFS_junk (dir : List Char) (hP : 'P' ∉ dir) (files : List (Nat × Nat)) (hm : ∀ f ∈ files, f.2 < 100000)
+    (junk : List (List Char)) (hj : ∀ n ∈ junk, NoGlob n) (plate : Nat) :
+    latestMjdFS dir (listingOf files ++ junk) plate = .ok (latestMjd files plate) := by
+  rw [latestMjdFS_ignores_unmatched, List.filter_append]
+  have : junk.filter (globMatch plate) = [] := by
+    rw [List.filter_eq_nil_iff]
+    intro n hn
+    rw [hj n hn plate]
+    exact Bool.false_ne_true
+  rw [this, List.append_nil, ← latestMjdFS_ignores_unmatched]
+  exact latestMjdFS_eq_latestMjd dir plate hP files hm
+
+/-- PROPERTY (end to end, part 1).  readspec on a DIRECTORY LISTING - names formed with zero padding, latest MJD found by glob +
+regular expression, files opened by name - is the abstract `readspec` on the survey `surveyOfFiles`, for every calling
+convention, every plate (≥ 10000 included), any order of the listing's spPlate part, decoy plates and other entries present. -/
+theorem readspecFS_eq_readspec (argsort : List Nat → List Nat) (dir : List Char) (hP : 'P' ∉ dir)
+    (files : List (Nat × Nat)) (hm : ∀ f ∈ files, f.2 < 100000) (junk : List (List Char)) (hj : ∀ n ∈ junk, NoGlob n)
+    (content : List Char → PlateFile α τ) (platein : Arg Nat) (mjd : Option (Arg Nat)) (fiber : Arg Int) :
+    readspecFS argsort dir (listingOf files ++ junk) content platein mjd fiber
+      = readspec argsort (surveyOfFiles files content) files platein mjd fiber := by
+  have hl : ∀ p, latestMjdFS dir (listingOf files ++ junk) p = .ok (latestMjd files p) :=
+    latestMjdFS_junk dir hP files hm junk hj
+  have hmap : platein.toList.mapM (latestMjdFS dir (listingOf files ++ junk)) = .ok (platein.toList.map (latestMjd files)) :=
+    mapM_ok _ _ _ (fun p _ => hl p)
+  have hlat : latestOf (fun _ => listingOf files ++ junk) dir = latestMjd files := by
+    funext p
+    simp only [latestOf, hl p]
+  have hcore : readspecFS argsort dir (listingOf files ++ junk) content platein mjd fiber
+      = readspecFSCore argsort dir (listingOf files ++ junk) content platein mjd fiber := by
+    unfold readspecFS
+    rw [hmap]
+    cases mjd <;> rfl
+  rw [hcore]
+  unfold readspecFSCore readspec
+  rw [hlat, surveyOfListing_eq files junk hj content]
+
+/-- PROPERTY (end to end, part 2 = `readspec_row_i` about file listings).  A directory `dir` holds the spPlate files `files`
+(their names are `spPlate-pppp-mmmmm.fits` with AT LEAST 4 plate digits) among other entries.  For EVERY request vector whose
+(plate_i, mjd_i) are among the files and whose fibres exist (`Domain` on `surveyOfFiles`): readspec on the listing succeeds and
+row i of every image HDU is row `fibre_i - 1` of the file NAMED `spPlate-{plate_i:04d}-{mjd_i:05d}.fits`, zero-padded on the
+right to the longest pixel count, never shifted - and two different (plate, MJD) never name the same file
+(`specFileName_injective`), so no request can receive another plate's rows through a shared or mis-globbed name. -/
+theorem readspec_row_i_listing (argsort : List Nat → List Nat) (hA : IsArgsort argsort) (dir : List Char) (hP : 'P' ∉ dir)
+    (files : List (Nat × Nat)) (hm : ∀ f ∈ files, f.2 < 100000) (junk : List (List Char)) (hj : ∀ n ∈ junk, NoGlob n)
+    (content : List Char → PlateFile α τ) (pv mv : List Nat) (fv : List Int) (fl : Nat → PlateFile α τ)
+    (zt tt : Option (Nat → Nat → τ))
+    (D : Domain (surveyOfFiles files content) pv mv fv fl zt tt) (hn : 0 < pv.length) :
+    (∀ i, i < pv.length → fl i = content (specFileName (pv.getD i 0) (mv.getD i 0)) ∧ (pv.getD i 0, mv.getD i 0) ∈ files) ∧
+    ∃ res w, readspecFS argsort dir (listingOf files ++ junk) content (.vec pv) (some (.vec mv)) (.vec fv) = .ok res ∧
+      (∀ i, i < pv.length → (fl i).npix ≤ w) ∧ (∃ i, i < pv.length ∧ (fl i).npix = w) ∧
+      res.imgs.length = imgHdus.length ∧
+      ∀ (k h : Nat), imgHdus[k]? = some h → h ≠ 7 →
+        ∃ im : Img α, res.imgs[k]? = some im ∧ im.npix = w ∧ im.rows.length = pv.length ∧
+          ∀ i, i < pv.length → im.rows[i]? =
+            some ((content (specFileName (pv.getD i 0) (mv.getD i 0))).img h ((fv.getD i 0 - 1).toNat)
+              ++ List.replicate (w - (fl i).npix) zero) := by
+  have hfl : ∀ i, i < pv.length → fl i = content (specFileName (pv.getD i 0) (mv.getD i 0)) ∧ (pv.getD i 0, mv.getD i 0) ∈ files := by
+    intro i hi
+    have := D.file i hi
+    unfold surveyOfFiles at this
+    split at this
+    · rename_i hmem
+      exact ⟨(Option.some.inj this).symm, hmem⟩
+    · cases this
+  refine ⟨hfl, ?_⟩
+  obtain ⟨res, w, h1, h2, h3, h4, h5⟩ := readspec_row_i argsort hA D hn
+  refine ⟨res, w, ?_, h2, h3, h4, ?_⟩
+  · rw [readspecFS_eq_readspec argsort dir hP files hm junk hj, readspec_vec argsort _ files pv mv fv D.len_mv D.len_fv hn]
+    exact h1
+  · intro k h hk h7
+    obtain ⟨im, i1, i2, i3, i4⟩ := h5 k h hk h7
+    refine ⟨im, i1, i2, i3, ?_⟩
+    intro i hi
+    rw [i4 i hi, (hfl i hi).1]
+
+/-- PROPERTY (end to end, `mjd=None`).  With `mjd=None` the request vector readspec works on has, for every plate, the LARGEST
+MJD among the names `spPlate-{plate:04d}-*.fits` of the listing (decoys ignored): readspec on the listing is `readspecCore` on
+`(pv, pv.map (latestMjd files), fv)`, to which the row theorems apply. -/
+theorem readspec_latest_listing (argsort : List Nat → List Nat) (dir : List Char) (hP : 'P' ∉ dir)
+    (files : List (Nat × Nat)) (hm : ∀ f ∈ files, f.2 < 100000) (junk : List (List Char)) (hj : ∀ n ∈ junk, NoGlob n)
+    (content : List Char → PlateFile α τ) (pv : List Nat) (fv : List Int) (h2 : fv.length = pv.length) (hn : 0 < pv.length) :
+    readspecFS argsort dir (listingOf files ++ junk) content (.vec pv) none (.vec fv)
+      = readspecCore argsort (surveyOfFiles files content) pv (pv.map (latestMjd files)) fv ∧
+    ∀ p, (∀ m, (p, m) ∈ files → m ≤ latestMjd files p) ∧ (latestMjd files p = 0 ∨ (p, latestMjd files p) ∈ files) := by
+  refine ⟨?_, fun p => latestMjd_spec files p⟩
+  rw [readspecFS_eq_readspec argsort dir hP files hm junk hj]
+  simp only [readspec, normalize_latest (latestMjd files) pv fv h2 hn]
+  rfl
+
+/-- PROPERTY (end to end).  Under the plain vector convention readspec on a listing IS `readspecCore` on the survey of the listed
+files - so every theorem about `readspecCore` (`loglam_rows`, `readspec_tables`, the `_znum` family through `readspecX_plain`)
+speaks about directory listings. -/
+theorem readspecFS_vec (argsort : List Nat → List Nat) (dir : List Char) (hP : 'P' ∉ dir)
+    (files : List (Nat × Nat)) (hm : ∀ f ∈ files, f.2 < 100000) (junk : List (List Char)) (hj : ∀ n ∈ junk, NoGlob n)
+    (content : List Char → PlateFile α τ) (pv mv : List Nat) (fv : List Int)
+    (h1 : mv.length = pv.length) (h2 : fv.length = pv.length) (hn : 0 < pv.length) :
+    readspecFS argsort dir (listingOf files ++ junk) content (.vec pv) (some (.vec mv)) (.vec fv)
+      = readspecCore argsort (surveyOfFiles files content) pv mv fv := by
+  rw [readspecFS_eq_readspec argsort dir hP files hm junk hj, readspec_vec argsort _ files pv mv fv h1 h2 hn]
+
+/-- PROPERTY (end to end, wavelengths and tables over listings): `loglam_rows` and `readspec_tables` for readspec on a listing -
+loglam row i is `COEFF0 + COEFF1*p` of the file NAMED for request i (zeros in the padding); plug-map / zans / tsobj row i is row
+`fibre_i - 1` of that file's table; zans / tsobj are returned exactly when the files have them. -/
+theorem readspec_tables_loglam_listing (argsort : List Nat → List Nat) (hA : IsArgsort argsort) (dir : List Char) (hP : 'P' ∉ dir)
+    (files : List (Nat × Nat)) (hm : ∀ f ∈ files, f.2 < 100000) (junk : List (List Char)) (hj : ∀ n ∈ junk, NoGlob n)
+    (content : List Char → PlateFile α τ) (pv mv : List Nat) (fv : List Int) (fl : Nat → PlateFile α τ)
+    (zt tt : Option (Nat → Nat → τ))
+    (D : Domain (surveyOfFiles files content) pv mv fv fl zt tt) (hn : 0 < pv.length) :
+    ∃ res w, readspecFS argsort dir (listingOf files ++ junk) content (.vec pv) (some (.vec mv)) (.vec fv) = .ok res ∧
+      (∃ im : Img α, res.imgs[6]? = some im ∧ im.npix = w ∧ im.rows.length = pv.length ∧
+        ∀ i, i < pv.length → im.rows[i]? =
+          some ((List.range (fl i).npix).map (fun p => (fl i).c0 + (fl i).c1 * Scalar.ofNat p)
+            ++ List.replicate (w - (fl i).npix) zero)) ∧
+      res.plug.length = pv.length ∧
+      (∀ i, i < pv.length → res.plug[i]? = some ((fl i).plug ((fv.getD i 0 - 1).toNat))) ∧
+      (zt = none → res.zans = none) ∧
+      (∀ t, zt = some t → ∃ l, res.zans = some l ∧ l.length = pv.length ∧
+        ∀ i, i < pv.length → l[i]? = some (t i ((fv.getD i 0 - 1).toNat))) ∧
+      (tt = none → res.tsobj = none) ∧
+      (∀ t, tt = some t → ∃ l, res.tsobj = some l ∧ l.length = pv.length ∧
+        ∀ i, i < pv.length → l[i]? = some (t i ((fv.getD i 0 - 1).toNat))) := by
+  obtain ⟨res, w, h1, _, _, h4⟩ := loglam_rows argsort hA D hn
+  obtain ⟨res', g1, g2, g3, g4, g5, g6, g7⟩ := readspec_tables argsort hA D hn
+  have : res' = res := by
+    rw [h1] at g1
+    exact (Except.ok.inj g1).symm
+  subst this
+  refine ⟨res', w, ?_, h4, g2, g3, g4, g5, g6, g7⟩
+  rw [readspecFS_vec argsort dir hP files hm junk hj content pv mv fv D.len_mv D.len_fv hn]
+  exact h1
+
+end FS
+
+theorem sum_insertU (nf : Nat → Nat) (x : Nat) (l : List Nat) (h : l.Pairwise (· < ·)) :
+    ((insertU x l).map nf).sum = if x ∈ l then (l.map nf).sum else nf x + (l.map nf).sum := by
+  induction l with
+  | nil => simp [insertU]
+  | cons y ys ih =>
+    have hy := List.pairwise_cons.mp h
+    simp only [insertU]
+    by_cases h1 : x < y
+    · rw [if_pos h1]
+      have hn : x ∉ y :: ys := by
+        intro hm
+        rcases List.mem_cons.mp hm with e | e
+        · omega
+        · have := hy.1 x e; omega
+      rw [if_neg hn]
+      simp
+    · rw [if_neg h1]
+      by_cases h2 : x = y
+      · rw [if_pos h2]; subst h2; simp
+      · rw [if_neg h2]
+        simp only [List.map_cons, List.sum_cons, ih hy.2, List.mem_cons, h2, false_or]
+        split <;> omega
+
+theorem sum_uniq_le (nf : Nat → Nat) (ps : List Nat) : ((uniq ps).map nf).sum ≤ (ps.map nf).sum := by
+  induction ps with
+  | nil => simp [uniq]
+  | cons x xs ih =>
+    have : uniq (x :: xs) = insertU x (uniq xs) := rfl
+    rw [this, sum_insertU nf x _ (pairwise_uniq xs)]
+    simp only [List.map_cons, List.sum_cons]
+    split <;> omega
+
+/-- `np.unique` drops fibres: with a repeated plate the filled part is shorter than `total_fibers` -/
+theorem sum_uniq_lt (nf : Nat → Nat) (ps : List Nat) (hd : ¬ ps.Nodup) (hpos : ∀ p ∈ ps, 0 < nf p) :
+    ((uniq ps).map nf).sum < (ps.map nf).sum := by
+  induction ps with
+  | nil => exact absurd List.nodup_nil hd
+  | cons x xs ih =>
+    have : uniq (x :: xs) = insertU x (uniq xs) := rfl
+    rw [this, sum_insertU nf x _ (pairwise_uniq xs)]
+    simp only [List.map_cons, List.sum_cons]
+    have hx := hpos x (by simp)
+    have hle := sum_uniq_le nf xs
+    by_cases hm : x ∈ xs
+    · rw [if_pos ((mem_uniq x xs).mpr hm)]; omega
+    · rw [if_neg (fun h => hm ((mem_uniq x xs).mp h))]
+      have hd' : ¬ xs.Nodup := fun h => hd (List.nodup_cons.mpr ⟨hm, h⟩)
+      have := ih hd' (fun p hp => hpos p (by simp [hp]))
+      omega
+
+section Ext3
+variable {α τ : Type} [Scalar α]
+
+/-- PROPERTY (error theorem, `fiber=None` with REPEATED plates).  `platevec = np.zeros(total_fibers)` is filled once per DISTINCT
+plate, so with a repeated plate the tail stays plate 0 / fibre 0; readspec then looks for the spPlate file of plate 0 at
+`latest_mjd(0)` and raises - nothing is returned.  This form has the gap between `total_fibers` and the filled part as the
+hypothesis `hgap`; `sum_uniq_lt` proves it for every vector with a repeated plate (`readspec_all_fibers_dup_raises` below). -/
+theorem readspec_all_fibers_unfilled_raises (argsort : List Nat → List Nat) (S : Survey α τ) (Z : ZSurvey τ)
+    (files : List (Nat × Nat)) (pl : Option (List PlateListRow)) (r2 r1 : String) (ps : List Nat) (nf : Nat → Nat)
+    (znum : Option Int)
+    (hnf : numberOfFibers (latestMjd files) pl r2 r1 ps = .ok (ps.map nf))
+    (hgap : ((uniq ps).map nf).sum < (ps.map nf).sum)
+    (h0 : S 0 (latestMjd files 0) = none) (hl : latestMjd files 0 < 2 ^ 16) :
+    ∃ e, readspecX argsort S Z files pl r2 r1 (.vec ps) none none znum = .error e := by
+  have hblocks : (uniq ps).map (fun p => (p, countFor ps (ps.map nf) p)) = (uniq ps).map (fun p => (p, nf p)) := by
+    apply List.map_congr_left
+    intro p hp
+    rw [countFor_map ps nf p ((mem_uniq p ps).mp hp)]
+  have hl1 : ((uniq ps).flatMap (fun p => List.replicate (nf p) p)).length = ((uniq ps).map nf).sum := by
+    simp [List.length_flatMap]
+  have hl2 : ((uniq ps).flatMap (fun p => (List.range (nf p)).map (fun (i : Nat) => (i : Int) + 1))).length
+      = ((uniq ps).map nf).sum := by
+    simp [List.length_flatMap]
+  have hnorm : normalizeAll (latestMjd files) (numberOfFibers (latestMjd files) pl r2 r1) (.vec ps) none
+      = .ok ((uniq ps).flatMap (fun p => List.replicate (nf p) p) ++ List.replicate ((ps.map nf).sum - ((uniq ps).map nf).sum) 0,
+             ((uniq ps).flatMap (fun p => List.replicate (nf p) p) ++ List.replicate ((ps.map nf).sum - ((uniq ps).map nf).sum) 0).map (latestMjd files),
+             (uniq ps).flatMap (fun p => (List.range (nf p)).map (fun (i : Nat) => (i : Int) + 1))
+               ++ List.replicate ((ps.map nf).sum - ((uniq ps).map nf).sum) 0) := by
+    simp only [normalizeAll, Arg.toList, hnf, hblocks, bind, Except.bind, pure, Except.pure,
+      List.flatMap_map, hl1, hl2]
+    rw [bcast_same _ _ (by simp)]
+  have hPV : ((uniq ps).flatMap (fun p => List.replicate (nf p) p)
+      ++ List.replicate ((ps.map nf).sum - ((uniq ps).map nf).sum) 0)[((uniq ps).map nf).sum]? = some 0 := by
+    rw [List.getElem?_append_right (by omega), hl1, List.getElem?_replicate]
+    simp only [Nat.sub_self]
+    rw [if_pos (by omega)]
+  have := readspec_missing_file_raises argsort S Z znum
+    ((uniq ps).flatMap (fun p => List.replicate (nf p) p) ++ List.replicate ((ps.map nf).sum - ((uniq ps).map nf).sum) 0)
+    (((uniq ps).flatMap (fun p => List.replicate (nf p) p) ++ List.replicate ((ps.map nf).sum - ((uniq ps).map nf).sum) 0).map (latestMjd files))
+    ((uniq ps).flatMap (fun p => (List.range (nf p)).map (fun (i : Nat) => (i : Int) + 1))
+               ++ List.replicate ((ps.map nf).sum - ((uniq ps).map nf).sum) 0)
+    (by simp) (((uniq ps).map nf).sum)
+    (by simp only [List.length_append, hl1, List.length_replicate]; omega)
+    (by simp only [List.getD_eq_getElem?_getD, List.getElem?_map, hPV, Option.map_some, Option.getD_some]; exact hl)
+    (by simp only [List.getD_eq_getElem?_getD, List.getElem?_map, hPV, Option.map_some, Option.getD_some]; exact h0)
+  obtain ⟨e, he⟩ := this
+  refine ⟨e, ?_⟩
+  simp only [readspecX, hnorm]
+  exact he
+
+/-- PROPERTY (error theorem, `fiber=None` with REPEATED plates, full).  For EVERY plate vector that is not duplicate-free and whose
+plates have fibres (`nf p > 0`), any `znum`: readspec raises (no plate-0 file at `latest_mjd(0)`), nothing is returned. -/
+theorem readspec_all_fibers_dup_raises (argsort : List Nat → List Nat) (S : Survey α τ) (Z : ZSurvey τ)
+    (files : List (Nat × Nat)) (pl : Option (List PlateListRow)) (r2 r1 : String) (ps : List Nat) (nf : Nat → Nat)
+    (znum : Option Int)
+    (hnf : numberOfFibers (latestMjd files) pl r2 r1 ps = .ok (ps.map nf))
+    (hdup : ¬ ps.Nodup) (hpos : ∀ p ∈ ps, 0 < nf p)
+    (h0 : S 0 (latestMjd files 0) = none) (hl : latestMjd files 0 < 2 ^ 16) :
+    ∃ e, readspecX argsort S Z files pl r2 r1 (.vec ps) none none znum = .error e :=
+  readspec_all_fibers_unfilled_raises argsort S Z files pl r2 r1 ps nf znum hnf (sum_uniq_lt nf ps hdup hpos) h0 hl
+
+end Ext3
+
+/-- PROPERTY (error theorem).  A name that the plate's glob picks but in which the regular expression finds no MJD
+(`spPlate-0266-final.fits`, a 4- or 6-digit MJD, ...) makes latest_mjd raise AttributeError, wherever it stands in the listing
+and whatever else is there: no MJD is made up for it, and it is not skipped. -/
+theorem latestMjdFS_malformed_raises (dir : List Char) (listing : List (List Char)) (plate : Nat) (name : List Char)
+    (hmem : name ∈ listing) (hg : globMatch plate name = true) (hre : reSearch (dir ++ '/' :: name) = none) :
+    latestMjdFS dir listing plate = .error "AttributeError" := by
+  unfold latestMjdFS
+  generalize (0 : Nat) = big
+  induction listing generalizing big with
+  | nil => cases hmem
+  | cons x xs ih =>
+    rw [List.foldlM_cons]
+    by_cases hx : globMatch plate x = true
+    · rw [if_pos hx]
+      cases hs : reSearch (dir ++ '/' :: x) with
+      | none => rfl
+      | some m =>
+        rcases List.mem_cons.mp hmem with h | h
+        · subst h; rw [hre] at hs; cases hs
+        · simp only [pure_bind]
+          exact ih h _
+    · rw [if_neg hx, pure_bind]
+      rcases List.mem_cons.mp hmem with h | h
+      · subst h; exact absurd hg hx
+      · exact ih h _
+
+example : ((uniq [7, 7]).map (fun _ => 3)).sum < ([7, 7].map (fun _ => 3)).sum := by decide
+
+section Mixed
+variable {α τ : Type} [Scalar α]
+
+/-- number of request positions read so far / rows of one accumulated table / "the table's key exists" -/
+def alen (st : Option (Acc α τ)) : Nat := match st with | none => 0 | some a => a.allidx.length
+def tlen (accT : Acc α τ → Option (List τ)) (st : Option (Acc α τ)) : Nat := ((st.bind accT).getD []).length
+
+/-- one pass of the loop: the file exists, `allpmjdindex` grows by the number of requests of the key, the table grows by the
+same number when the file has the table and not at all when it has not -/
+theorem step_table (get : PlateFile α τ → Option (Nat → τ)) (accT : Acc α τ → Option (List τ))
+    (hacc : ∀ f idx rows st, accT (stepOk f idx rows st) = catOpt (st.bind accT) ((get f).map (fun t => rows.map t)))
+    (S : Survey α τ) (pv mv : List Nat) (fv : List Int) (st st' : Option (Acc α τ)) (u : Nat)
+    (h : step S pv mv fv st u = .ok st') :
+    ∃ f, S (u >>> 16) (u &&& ((1 <<< 16) - 1)) = some f ∧ alen st' = alen st + (idxOf pv mv u).length ∧
+      (get f = none → tlen accT st' = tlen accT st ∧ ((st.bind accT).isSome → (st'.bind accT).isSome)) ∧
+      ((get f).isSome → tlen accT st' = tlen accT st + (idxOf pv mv u).length ∧ (st'.bind accT).isSome) := by
+  simp only [step] at h
+  cases hS : S (u >>> 16) (u &&& ((1 <<< 16) - 1)) with
+  | none => rw [hS] at h; cases h
+  | some f =>
+    rw [hS] at h
+    simp only at h
+    split at h
+    · cases h
+    · have h' := Except.ok.inj h
+      subst h'
+      refine ⟨f, rfl, ?_, ?_, ?_⟩
+      · cases st <;> simp [alen, stepOk]
+      · intro hg
+        simp only [tlen, Option.bind_some, hacc, hg, Option.map_none]
+        cases hst : st.bind accT <;> simp [catOpt]
+      · intro hg
+        obtain ⟨t, ht⟩ := Option.isSome_iff_exists.mp hg
+        simp only [tlen, Option.bind_some, hacc, ht, Option.map_some]
+        cases hst : st.bind accT <;> simp [catOpt]
+
+theorem fold_table (get : PlateFile α τ → Option (Nat → τ)) (accT : Acc α τ → Option (List τ))
+    (hacc : ∀ f idx rows st, accT (stepOk f idx rows st) = catOpt (st.bind accT) ((get f).map (fun t => rows.map t)))
+    (S : Survey α τ) (pv mv : List Nat) (fv : List Int) (us : List Nat) :
+    ∀ (st st' : Option (Acc α τ)), us.foldlM (step S pv mv fv) st = .ok st' → tlen accT st ≤ alen st →
+      tlen accT st' ≤ alen st' ∧ (tlen accT st < alen st → tlen accT st' < alen st') ∧
+      ((st.bind accT).isSome → (st'.bind accT).isSome) ∧
+      (∀ u ∈ us, ∀ f, S (u >>> 16) (u &&& ((1 <<< 16) - 1)) = some f → get f = none → 0 < (idxOf pv mv u).length →
+        tlen accT st' < alen st') ∧
+      (∀ u ∈ us, ∀ f, S (u >>> 16) (u &&& ((1 <<< 16) - 1)) = some f → (get f).isSome → (st'.bind accT).isSome) := by
+  induction us with
+  | nil =>
+    intro st st' h hle
+    have : st = st' := Except.ok.inj h
+    subst this
+    refine ⟨hle, id, id, ?_, ?_⟩ <;> (intro u hu; cases hu)
+  | cons x xs ih =>
+    intro st st' h hle
+    rw [List.foldlM_cons] at h
+    cases hx : step S pv mv fv st x with
+    | error e => rw [hx] at h; cases h
+    | ok s1 =>
+      rw [hx] at h
+      obtain ⟨f, hf, ha, hn, hs⟩ := step_table get accT hacc S pv mv fv st s1 x hx
+      have hle1 : tlen accT s1 ≤ alen s1 := by
+        cases hg : get f with
+        | none => have := (hn hg).1; omega
+        | some t => have := (hs (by rw [hg]; rfl)).1; omega
+      obtain ⟨i1, i2, i3, i4, i5⟩ := ih s1 st' h hle1
+      refine ⟨i1, ?_, ?_, ?_, ?_⟩
+      · intro hlt
+        apply i2
+        cases hg : get f with
+        | none => have := (hn hg).1; omega
+        | some t => have := (hs (by rw [hg]; rfl)).1; omega
+      · intro hsome
+        apply i3
+        cases hg : get f with
+        | none => exact (hn hg).2 hsome
+        | some t => exact (hs (by rw [hg]; rfl)).2
+      · intro u hu g hg hnone hpos
+        rcases List.mem_cons.mp hu with e | e
+        · subst e
+          rw [hf] at hg
+          have := Option.some.inj hg
+          subst this
+          apply i2
+          have := (hn hnone).1
+          omega
+        · exact i4 u e g hg hnone hpos
+      · intro u hu g hg hsome
+        rcases List.mem_cons.mp hu with e | e
+        · subst e
+          rw [hf] at hg
+          have := Option.some.inj hg
+          subst this
+          exact i3 (hs hsome).2
+        · exact i5 u e g hg hsome
+
+/-- PROPERTY (error theorem, mixed availability, the whole loop).  If ONE requested plate-MJD has the spZbest (resp. photoPlate)
+file and ANOTHER requested one has not, readspec returns nothing: it raises - at the latest in the reorder step, where the table
+has fewer rows than there are requests - for ANY argsort, any order of the requests.  `which = true`: zans, `false`: tsobj. -/
+theorem readspec_mixed_tables_raise (which : Bool) (argsort : List Nat → List Nat) (hA : IsArgsort argsort)
+    (S : Survey α τ) (pv mv : List Nat) (fv : List Int) (hlen : mv.length = pv.length)
+    (i j : Nat) (hi : i < pv.length) (hj : j < pv.length) (hmi : mv.getD i 0 < 2 ^ 16) (hmj : mv.getD j 0 < 2 ^ 16)
+    (fi fj : PlateFile α τ) (hSi : S (pv.getD i 0) (mv.getD i 0) = some fi) (hSj : S (pv.getD j 0) (mv.getD j 0) = some fj)
+    (hnone : (if which then fi.zans else fi.tsobj) = none) (hsome : (if which then fj.zans else fj.tsobj).isSome) :
+    ∃ e, readspecCore argsort S pv mv fv = .error e := by
+  simp only [readspecCore]
+  cases hfold : (uniq (List.zipWith key pv mv)).foldlM (step S pv mv fv) none with
+  | error e => exact ⟨e, rfl⟩
+  | ok st' =>
+    cases st' with
+    | none => exact ⟨"UnboundLocalError", rfl⟩
+    | some a =>
+      have hui : key (pv.getD i 0) (mv.getD i 0) ∈ uniq (List.zipWith key pv mv) := (mem_keys hlen _).mpr ⟨i, hi, rfl⟩
+      have huj : key (pv.getD j 0) (mv.getD j 0) ∈ uniq (List.zipWith key pv mv) := (mem_keys hlen _).mpr ⟨j, hj, rfl⟩
+      have hdi := key_decode (pv.getD i 0) (mv.getD i 0) hmi
+      have hdj := key_decode (pv.getD j 0) (mv.getD j 0) hmj
+      have hpos : 0 < (idxOf pv mv (key (pv.getD i 0) (mv.getD i 0))).length :=
+        List.length_pos_of_mem ((mem_idxOf _ i).mpr ⟨hi, hdi.1.symm, hdi.2.symm⟩)
+      have key_fact : ∀ (get : PlateFile α τ → Option (Nat → τ)) (accT : Acc α τ → Option (List τ)),
+          (∀ f idx rows st, accT (stepOk f idx rows st) = catOpt (st.bind accT) ((get f).map (fun t => rows.map t))) →
+          get fi = none → (get fj).isSome → ∃ l, accT a = some l ∧ l.length < a.allidx.length := by
+        intro get accT hacc h1 h2
+        obtain ⟨_, _, _, i4, i5⟩ := fold_table get accT hacc S pv mv fv _ none (some a) hfold (by simp [tlen, alen])
+        have hlt := i4 _ hui fi (by rw [hdi.1, hdi.2]; exact hSi) h1 hpos
+        have hs := i5 _ huj fj (by rw [hdj.1, hdj.2]; exact hSj) h2
+        simp only [Option.bind_some] at hs
+        obtain ⟨l, hl⟩ := Option.isSome_iff_exists.mp hs
+        refine ⟨l, hl, ?_⟩
+        simpa [tlen, alen, hl] using hlt
+      have hfin : ∃ e, finish argsort a = .error e := by
+        apply finish_short_table_raises argsort hA a
+        cases which with
+        | true =>
+          left
+          exact key_fact (·.zans) (·.zans) (by intro f idx rows st; cases st <;> rfl) (by simpa using hnone) (by simpa using hsome)
+        | false =>
+          right
+          exact key_fact (·.tsobj) (·.tsobj) (by intro f idx rows st; cases st <;> rfl) (by simpa using hnone) (by simpa using hsome)
+      obtain ⟨e, he⟩ := hfin
+      exact ⟨e, he⟩
+
+end Mixed
+
+/-! non-vacuity of the listing theorems -/
+example : specFileName 266 51630 = ['s','p','P','l','a','t','e','-','0','2','6','6','-','5','1','6','3','0','.','f','i','t','s'] ∧
+    specFileName 10266 5 = ['s','p','P','l','a','t','e','-','1','0','2','6','6','-','0','0','0','0','5','.','f','i','t','s'] := by
+  constructor <;> simp [specFileName, pmjdStr, fmtD, padL, decDigits, digitChar, sPfx, sSfx]
+example : NoGlob ['s','p','Z','b','e','s','t','-','0','2','6','6','-','5','1','6','3','0','.','f','i','t','s'] := by
+  intro p
+  simp only [globMatch, Bool.and_eq_false_iff]
+  left
+  rw [← Bool.not_eq_true, List.isPrefixOf_iff_prefix]
+  rintro ⟨t, ht⟩
+  have := congrArg (fun l => l[2]?) ht
+  simp [sPfx] at this
+example : latestMjdFS ['/','d','a','t','a'] (listingOf [(266, 51630), (2660, 59999), (10266, 58888), (266, 51602)]) 266 = .ok 51630 := by
+  rw [latestMjdFS_eq_latestMjd _ _ (by decide) _ (by decide)]
+  rfl
 
 end PydlVerif.C16
